@@ -90,7 +90,7 @@ def operands(dtype, rng, n):
 def clamp(v, lim, dtype):
     """scale v into (-lim, lim) by a power of two (keeps the significand)"""
     with numpy.errstate(all="ignore"):
-        while abs(v) >= lim:
+        while numpy.isfinite(v) and abs(v) >= lim:
             v = v * dtype(0.25)
     return v
 
@@ -123,12 +123,25 @@ def job(arg):
             lst.append({k: (repr(v) if isinstance(v, numpy.floating) else v) for k, v in kw.items()})
 
     with numpy.errstate(all="ignore"):
-        if op in ("add_3sum", "add_4sum"):
+        if op in ("add_3sum", "add_4sum", "add_4sum-pair-cancellation"):
             lim = big / dtype(4)
             k = 3 if op == "add_3sum" else 4
+            eps = float(fi.eps)
             for _ in range(count):
                 xs = [clamp(v, lim, dtype) for v in operands(dtype, rng, k)]
-                mode = int(rng.integers(0, 4))
+                mode = int(rng.integers(0, 4)) if op != "add_4sum-pair-cancellation" else int(rng.integers(5, 9))
+                if mode == 5:  # z cancels the rounded sum of the first pair, w far below
+                    xs[2] = clamp(-(xs[0] + xs[1]) * dtype(1 + int(rng.integers(-3, 4)) * eps), lim, dtype)
+                    if xs[3] != 0:
+                        xs[3] = clamp(xs[3] * numpy.ldexp(dtype(1), int(numpy.frexp(xs[0] + xs[1])[1]) - int(numpy.frexp(xs[3])[1]) - int(rng.integers(p - 3, p + 4))), lim, dtype)
+                elif mode >= 6:  # the high words of the two pairs cancel, the low words (about an ulp of them) decide the result
+                    e = int(numpy.frexp(xs[1])[1])
+                    sc = int(rng.integers(p - 4, p + 3))
+                    xs[0] = clamp(numpy.ldexp(dtype(rng.uniform(1, 2)) * dtype(1 if rng.integers(0, 2) else -1), e - sc), lim, dtype)
+                    xs[2] = clamp(-xs[1] * dtype(1 + int(rng.integers(-4, 5)) * eps), lim, dtype)
+                    xs[3] = clamp(numpy.ldexp(dtype(rng.uniform(1, 2)) * dtype(1 if rng.integers(0, 2) else -1), e - sc + int(rng.integers(-2, 3))), lim, dtype)
+                if not all(numpy.isfinite(v) for v in xs):
+                    continue
                 if mode == 0:  # near-cancellation of the two largest
                     xs[1] = -xs[0] * dtype(1 + int(rng.integers(-2, 3)) * float(fi.eps))
                     xs[1] = clamp(xs[1], lim, dtype)
@@ -261,7 +274,7 @@ def classify_fma(dtype, a, b, c):
 
 
 def ops_list():
-    return ["add_3sum", "add_4sum", "mul_add", "dot2"] + ["fma:%s:%s:%s" % v for v in FMA_VARIANTS]
+    return ["add_3sum", "add_4sum", "add_4sum-pair-cancellation", "mul_add", "dot2"] + ["fma:%s:%s:%s" % v for v in FMA_VARIANTS]
 
 
 def run(rep, tier, prop="C11"):
@@ -270,8 +283,10 @@ def run(rep, tier, prop="C11"):
     nsplit = 2
     for tn in TYPES:
         for op in ops_list():
-            for k in range(nsplit):
-                jobs.append((tn, op, core.SEED * 7919 + 31 * k + (hash((tn, op)) % 1000 if False else sum(map(ord, tn + op))), per[tn] // nsplit))
+            # the pair-cancellation tuples expose a wrong second-order term of add_dw about once in 2000: four times the tuples
+            ns, cnt = (8, per[tn] * 4) if op == "add_4sum-pair-cancellation" else (nsplit, per[tn])
+            for k in range(ns):
+                jobs.append((tn, op, core.SEED * 7919 + 31 * k + sum(map(ord, tn + op)), cnt // ns))
     agg, seen = {}, {}
     with mp.get_context("fork").Pool(core.NPROC) as pool:
         for tn, op, counts, fails in pool.imap_unordered(job, jobs):
@@ -286,7 +301,7 @@ def run(rep, tier, prop="C11"):
                 regions = [r for r in FMA_REGIONS if fo == "True" or not r.startswith("overflow-margin")]
                 fnname = "apmath_algorithms.fma_real"
             else:
-                regions, fnname = ["all"], "floating_point_algorithms.%s" % op
+                regions, fnname = ["all"], "floating_point_algorithms.%s" % op.split("-")[0]
             for region in regions:
                 lst = agg.get((tn, op, region), [])
                 cnt = seen.get((tn, op, region), 0)
